@@ -213,29 +213,9 @@ Proof.
   - simpl map. rewrite mprod_cons, IH, (T_cp c p s v Hv), T_same_axis.
     f_equal. simpl. ring.
 Qed.
-(* ------------------------------------------------------------------ numpy.mod and the estimate_* pair *)
-Lemma Int_part_eq r z : IZR z <= r < IZR z + 1 -> Int_part r = z.
-Proof.
-  intros [H1 H2]. destruct (base_Int_part r) as [B1 B2].
-  assert (z < Int_part r + 1)%Z by (apply lt_IZR; rewrite plus_IZR; lra).
-  assert (Int_part r < z + 1)%Z by (apply lt_IZR; rewrite plus_IZR; lra).
-  lia.
-Qed.
-
-Lemma rmod_small x m : 0 < m -> 0 <= x < m -> rmod x m = x.
-Proof.
-  intros Hm [H0 H1]. unfold rmod. rewrite (Int_part_eq (x / m) 0); [simpl; ring|].
-  simpl. split.
-  - apply Rmult_le_pos; [assumption|]. left. now apply Rinv_0_lt_compat.
-  - rewrite Rplus_0_l. apply (Rmult_lt_reg_r m); [assumption|].
-    unfold Rdiv. rewrite Rmult_assoc, Rinv_l by lra. lra.
-Qed.
-
-Lemma rmod_self m : 0 < m -> rmod m m = 0.
-Proof.
-  intros Hm. unfold rmod. replace (m / m) with 1 by (field; lra).
-  rewrite (Int_part_eq 1 1); [simpl; ring|simpl; lra].
-Qed.
+(* ------------------------------------------------------------------ the estimate_* pair *)
+Lemma clip1_id z : -1 <= z <= 1 -> clip1 z = z.
+Proof. intros [H0 H1]. unfold clip1. rewrite Rmax_left by lra. apply Rmin_left. lra. Qed.
 
 Lemma Z_of_M (M : mat3 Cops) : fst (fz (mv M e3)) = fst (fz (row2 M)).
 Proof.
@@ -255,47 +235,27 @@ Proof.
   rewrite (const_phase_product (rf * 180) p ss vals H), Z_of_T. reflexivity.
 Qed.
 
-Lemma cos_lt_1 x : 0 < x < PI -> -1 < cos x < 1.
-Proof.
-  intros [H0 H1]. pose proof PI_RGT_0 as Hpi. split.
-  - rewrite <- cos_PI. apply cos_decreasing_1; lra.
-  - rewrite <- cos_0. apply cos_decreasing_1; lra.
-Qed.
-
-Lemma estimate_alpha_post_interior t : 0 < t < 180 ->
+Lemma estimate_alpha_post_closed t : 0 <= t <= 180 ->
   estimate_alpha_post (cos (PI / 180 * t)) = t.
 Proof.
   intros [H0 H1]. pose proof PI_RGT_0 as Hpi.
-  assert (Hx : 0 < PI / 180 * t < PI).
-  { split; [apply Rmult_lt_0_compat; lra|].
-    replace PI with (PI / 180 * 180) at 2 by field. apply Rmult_lt_compat_l; lra. }
-  pose proof (cos_lt_1 _ Hx) as [Hc0 Hc1].
-  unfold estimate_alpha_post. cbv zeta.
-  rewrite (rmod_small (cos (PI / 180 * t) + 1) 2) by lra.
-  replace (cos (PI / 180 * t) + 1 - 1) with (cos (PI / 180 * t)) by ring.
-  rewrite acos_cos by lra.
-  replace (PI / 180 * t / PI * 180) with t by (field; lra).
-  rewrite rmod_small by lra. ring.
+  assert (Hx : 0 <= PI / 180 * t <= PI).
+  { split; [apply Rmult_le_pos; lra|].
+    replace PI with (PI / 180 * 180) at 2 by field. apply Rmult_le_compat_l; lra. }
+  unfold estimate_alpha_post.
+  rewrite clip1_id by (pose proof (COS_bound (PI / 180 * t)); lra).
+  rewrite acos_cos by assumption. field. lra.
 Qed.
 
-(* DESIGN section 9 item 9: a zero pulse (rf = 0, or an all-zero waveform) is reported as -180 degrees *)
-Lemma estimate_alpha_post_1 : estimate_alpha_post 1 = -180.
-Proof.
-  pose proof PI_RGT_0 as Hpi.
-  unfold estimate_alpha_post. cbv zeta.
-  replace (1 + 1) with 2 by ring. rewrite (rmod_self 2) by lra.
-  replace (0 - 1) with (Ropp 1) by ring. rewrite acos_opp, acos_1.
-  replace ((PI - 0) / PI * 180 + 180) with 360 by (field; lra).
-  rewrite (rmod_self 360) by lra. ring.
-Qed.
-
-Theorem estimate_alpha_zero_rf vals : estimate_alpha vals 0 = -180.
+(* a zero pulse (rf = 0), any waveform, is reported as 0 degree (formerly -180: DESIGN section 9 item 9) *)
+Theorem estimate_alpha_zero_rf vals : estimate_alpha vals 0 = 0.
 Proof.
   unfold estimate_alpha. cbv zeta. rewrite combine_multi_mprod, Z_of_M.
   assert (E : mprod (map (fun v : R * R => rotation_operator (0 * 180 * fst v) (snd v)) vals) = mid).
   { induction vals as [|v t IH]; [reflexivity|]. simpl map. rewrite mprod_cons, IH, mmul_id_l.
     replace (0 * 180 * fst v) with 0 by ring. apply T_op_0. }
-  rewrite E. cbn [mid row2 fz]. change (fst (@k1 Cops)) with 1. apply estimate_alpha_post_1.
+  rewrite E. cbn [mid row2 fz]. change (fst (@k1 Cops)) with 1.
+  unfold estimate_alpha_post. rewrite clip1_id by lra. rewrite acos_1. unfold Rdiv. ring.
 Qed.
 
 (* ---- |sum of a constant-phase waveform| ---- *)
@@ -333,12 +293,12 @@ Proof. intros H. now rewrite (csum_cp p ss vals H), Cmod_mult, Cmod_R, Cmod_cis,
 
 (* ---- the two estimators are mutual inverses on the constant-phase branch ---- *)
 Theorem estimate_alpha_of_rf p ss vals alpha : Forall2 (cp_sample p) ss vals -> rsum ss <> 0 ->
-  0 < alpha < 180 -> estimate_alpha vals (estimate_rf vals alpha) = alpha.
+  0 <= alpha <= 180 -> estimate_alpha vals (estimate_rf vals alpha) = alpha.
 Proof.
   intros H HS Ha. rewrite (estimate_alpha_cp p ss vals _ H).
   unfold estimate_rf, estimate_rf_const. cbn [ndiv RNum nofZ].
   rewrite (abs_sum_cp p ss vals H).
-  rewrite <- (estimate_alpha_post_interior alpha Ha) at 2. f_equal.
+  rewrite <- (estimate_alpha_post_closed alpha Ha) at 2. f_equal.
   destruct (Rle_dec 0 (rsum ss)) as [Hp|Hn].
   - rewrite Rabs_pos_eq by assumption. f_equal. field. assumption.
   - rewrite Rabs_left by lra.
@@ -346,12 +306,10 @@ Proof.
     apply cos_neg.
 Qed.
 
-Theorem estimate_rf_of_alpha p ss vals rf : Forall2 (cp_sample p) ss vals ->
-  0 < rf * Rabs (rsum ss) < 1 -> estimate_rf vals (estimate_alpha vals rf) = rf.
+Theorem estimate_rf_of_alpha p ss vals rf : Forall2 (cp_sample p) ss vals -> rsum ss <> 0 ->
+  0 <= rf * Rabs (rsum ss) <= 1 -> estimate_rf vals (estimate_alpha vals rf) = rf.
 Proof.
-  intros H Hr.
-  assert (HS : rsum ss <> 0).
-  { intros E. rewrite E, Rabs_R0 in Hr. lra. }
+  intros H HS Hr.
   assert (Hab : 0 < Rabs (rsum ss)) by (apply Rabs_pos_lt; assumption).
   rewrite (estimate_alpha_cp p ss vals _ H).
   assert (Ec : cos (PI / 180 * (rf * 180 * rsum ss)) = cos (PI / 180 * (180 * (rf * Rabs (rsum ss))))).
@@ -360,10 +318,11 @@ Proof.
     - rewrite Rabs_left by lra.
       replace (PI / 180 * (180 * (rf * - rsum ss))) with (- (PI / 180 * (rf * 180 * rsum ss))) by field.
       now rewrite cos_neg. }
-  rewrite Ec, estimate_alpha_post_interior by lra.
+  rewrite Ec, estimate_alpha_post_closed by lra.
   unfold estimate_rf, estimate_rf_const. cbn [ndiv RNum nofZ].
   rewrite (abs_sum_cp p ss vals H). field. lra.
 Qed.
+
 Notation RPhi := (@PPhi RNum).
 Notation RT := (@PT RNum).
 Notation RE := (@PE RNum).
